@@ -618,6 +618,39 @@ def _check_status_membership(F, R, cl, want, what, subject_of):
         R.ok("R3", "%s: true exactly for status in %s (%d rows)" % (what, sorted(want), len(rows)), where(cb))
 
 
+def rule_R5(F, R):
+    R.begin("R5", "a rebuild never reports success without writing back and committing what it computed (no successful exit bypasses the commit, unless old and new working set were found equal)")
+    b = find_rebuild(F)
+    if b is None:
+        R.missing("R5", "the rebuild function")
+        return
+    c = cfg_of(b)
+    fl = flow_of(b)
+    commits = calls_matching(c, re.escape(TXN) + "::commit$")
+    if not commits:
+        R.violation("R5", b["owner_fn"], "no-commit", "rebuild never commits", where(b))
+        return
+    # successful exits: blocks assigning _0 = Ok(..)
+    oks = [(i, st) for (i, j, st) in agg_sites(c, "result::Result", "Ok") if st["l"]["l"] == 0 or True]
+    from tc.util import switch_true_edges
+    eq_edges = []
+    for s_ in sorted(c.reach):
+        t = c.term(s_)
+        if t and t["k"] == "switch":
+            bo = bool_origin(fl, t["o"])
+            if bo and any(re.search(r"PartialEq::(eq|ne)$", n) for n in call_names(bo[1])):
+                tys = " ".join(bo[1].get("substs", []))
+                if "Vec<std::option::Option<uuid::Uuid>>" in tys:
+                    isne = any(n.endswith("::ne") for n in call_names(bo[1]))
+                    eq_edges += switch_true_edges(c, s_, bo[2] != isne)
+    r = c.reachable(0, removed={i for i, _t in commits}, removed_edges=eq_edges)
+    bad = [i for (i, st) in oks if i in r and st["l"]["l"] == 0]
+    if bad:
+        R.violation("R5", b["owner_fn"], "success-without-commit", "rebuild can return Ok at %s without having written back and committed the working set it computed" % loc(c.blocks[bad[0]]["t"]["sp"]), where(b, bad[0]))
+    else:
+        R.ok("R5", "every successful exit of rebuild passes the commit", where(b, commits[0][0]))
+
+
 def rule_R3(F, R):
     R.begin("R3", "predicates: Replica::rebuild_working_set keeps exactly status pending|recurring; Replica::commit_operations adds on property==status, old not in {p,r}, new in {p,r}; TaskDb::commit_operations adds each uuid once")
     want = ("Pending", "Recurring")
